@@ -243,13 +243,34 @@ def run_commentlang(chk, L, rid="R-COMMENTLANG", maxlen=5):
     `*/`, and the position where it leaves comment mode must be right after the first `*/`."""
     import itertools
     from ..flexsim import FlexModel
-    chk.rule(rid, "scanner model, all strings w over {*, /, x, E, newline} up to length %d: scanning `/*` + w "
+    chk.rule(rid, "scanner model, all strings w over {*, /, x, E, newline and the literal words of the comment-mode rules} "
+                  "up to %d letters: scanning `/*` + w "
                   "leaves comment mode exactly after the first `*/` of w (and not at all if there is none); a `//` "
                   "comment ends exactly at the first line feed" % maxlen)
     M = FlexModel(L)
     if "comment" not in M.sc_names:
         raise AnalysisBroken("no <comment> start condition in lexer.l")
-    sigma = "*/xE\n"
+    sigma = list("*/xE\n")
+    # the literal words the comment-mode rules themselves look for (`EXPECT:`) are letters of the alphabet too: a rule
+    # that starts at such a word and runs on may run over the closing `*/`
+    def lit_prefix(p):
+        """(literal prefix, whole pattern was literal)"""
+        if p[0] == "lit":
+            return p[1], True
+        if p[0] == "cat":
+            out = ""
+            for x in p[1]:
+                t, full = lit_prefix(x)
+                out += t
+                if not full:
+                    return out, False
+            return out, True
+        return "", False
+    for r in L.rules:
+        if not r.eof and "comment" in r.sc.split(","):
+            w0 = lit_prefix(r.pat)[0]
+            if len(w0) >= 2 and w0 not in ("*/",) and w0 not in sigma:
+                sigma.append(w0)
     n = bad = 0
     first_bad = None
     for ln in range(0, maxlen + 1):
@@ -292,7 +313,7 @@ def run_commentlang(chk, L, rid="R-COMMENTLANG", maxlen=5):
     chk.ob(rid, "line-comment", bad2 == 0,
            "a `//` comment does not end exactly at the first line feed: %r should cover %s characters, covers %s" %
            (fb or ("", 0, 0)), "src/lexer.l")
-    chk.analysed[rid] = {"strings_simulated": n + n2, "alphabet": sigma, "max_length": maxlen}
+    chk.analysed[rid] = {"strings_simulated": n + n2, "alphabet": "".join(x if len(x) == 1 else "<%s>" % x for x in sigma), "max_length": maxlen}
 
 
 def run_diag_sink(chk, F, rid="R-DIAGSINK"):
@@ -321,3 +342,86 @@ def run_diag_sink(chk, F, rid="R-DIAGSINK"):
                    "get different diagnostic multisets" %
                    (name, "only under a condition" if appends_all and not appends_top else
                     "%d times" % appends_all), "%s:%s" % (fn["file"], fn["line"]))
+
+
+def run_xmlnames(chk, F, G, K, rid="R-XMLNAMES"):
+    """The XML reader tests the text of <name> elements with is_keyword(text, mask) and rejects keywords.  The grammar
+    re-admits some keywords as ordinary names (NonTypeId: sup, inf, bounds, simulation): the XTA front end and every
+    declaration accept them, so renaming a location to one of them must not change the verdict of an XML model."""
+    chk.rule(rid, "every keyword that NonTypeId re-admits as a name is accepted by the XML reader's name test: "
+                  "is_keyword(word, mask) is false for it under the mask XMLReader::readText uses")
+    fn = F.fn("UTAP::XMLReader::readText")
+    masks = [c["args"][1].get("ev") for c in calls(fn["body"], "is_keyword") if len(c.get("args", [])) >= 2]
+    if len(masks) != 1 or masks[0] is None:
+        raise AnalysisBroken("XMLReader::readText: expected one is_keyword(text, <syntax mask>) call")
+    mask = masks[0]
+    vals = {v["name"]: v["v"] for v in F.enum("syntax_t")["values"]}
+    nti = {r.rhs[0] for r in G.by_lhs.get("NonTypeId", []) if len(r.rhs) == 1}
+    n = 0
+    for w, (tok, syn) in sorted(K.map.items()):
+        if tok not in nti:
+            continue
+        m = 0
+        for s_ in syn:
+            m |= vals.get(s_, 0)
+        n += 1
+        chk.ob(rid, w, (m & mask) == 0,
+               "the grammar accepts `%s` as a name (NonTypeId -> %s), XTA `state %s;` and `int %s;` are accepted, but the "
+               "XML reader rejects <name>%s</name> with $Keywords_are_not_allowed_here (is_keyword(.., mask %d) with "
+               "keyword syntax %s): renaming a location or template to it changes the verdict of the XML model" %
+               (w, tok, w, w, w, mask, "|".join(syn)), "%s:%s" % (fn["file"], fn["line"]))
+    if n < 2:
+        raise AnalysisBroken("only %d keywords re-admitted by NonTypeId" % n)
+
+
+def run_idroles(chk, G, L, rid="R-IDROLES"):
+    """The letters A U W R E M are tokens of their own (path quantifiers, until, ...) that NonTypeId re-admits as names.
+    A name can be used in several roles; in each of them the letter token must behave like T_ID / T_TYPENAME.  Decided by
+    LR simulation of sentence templates on the current automaton, once with the ordinary token and once with the letter."""
+    from ..lrsim import LRSim, ParseError, shape
+    from ..lexer import token_name
+    chk.rule(rid, "for every single-letter token that NonTypeId re-admits: a sentence that uses a name in the role of (a) "
+                  "a declared type, (b) the array at the very start of a query, (c) a variable inside a query parses "
+                  "with the letter exactly as it parses with an ordinary identifier")
+    nti = {r.rhs[0] for r in G.by_lhs.get("NonTypeId", []) if len(r.rhs) == 1}
+    scanned = set()
+    for lx, toks in L.literal_tokens().items():
+        scanned |= toks
+    letters = sorted(t for t in nti if len(t) == 3 and t[0] == "'" and t[2] == "'" and t in scanned)
+    if len(letters) < 4:
+        raise AnalysisBroken("single-letter alternatives of NonTypeId: %s" % letters)
+    sim = LRSim(G)
+    templates = [
+        ("type-name", "a type cannot be called `%s`: the scanner returns the letter token before it asks is_type(), and "
+                      "the grammar has no such alternative where T_TYPENAME is expected (`typedef int[0,3] %s; %s x;`)",
+         ["T_NEW_DECLARATION", "T_TYPENAME", "T_ID", "';'"], 1, "T_TYPENAME"),
+        ("query-start-array", "a query cannot start with an element of an array called `%s` (`%s[0] == 1 --> y == 2`): "
+                              "after the letter the parser is committed to the path-formula reading of `%s[`",
+         ["T_PROPERTY", "T_ID", "'['", "T_NAT", "']'", "T_EQ", "T_NAT", "T_LEADS_TO", "T_ID", "T_EQ", "T_NAT"], 1, "T_ID"),
+        ("query-variable", "a variable called `%s` cannot be used inside a query (`E<> %s == 1`%s)",
+         ["T_PROPERTY", "T_EF", "T_ID", "T_EQ", "T_NAT"], 2, "T_ID"),
+    ]
+    for name, msg, toks, pos, base in templates:
+        try:
+            ref = shape(sim.parse(list(toks)))
+        except ParseError as e:
+            raise AnalysisBroken("R-IDROLES template %s does not parse with %s: %s" % (name, base, e))
+        for ℓ in letters:
+            t2 = list(toks)
+            t2[pos] = ℓ
+            try:
+                got = shape(sim.parse(t2))
+                ok = _same_shape(ref, got, base, ℓ)
+            except ParseError:
+                ok = False
+            c = ℓ[1]
+            chk.ob(rid, "%s|%s" % (name, c), ok, msg % ((c,) * msg.count("%s")) if msg.count("%s") != 3 or name != "query-variable"
+                   else msg % (c, c, ""), "src/parser.y")
+
+
+def _same_shape(a, b, base, letter):
+    """shapes equal up to the one leaf / unit production that differs"""
+    import json
+    import re as _re
+    norm = lambda x: _re.sub(r'NonTypeId -> [^"]*', "NonTypeId", json.dumps(x)).replace(base, "<ID>").replace(letter, "<ID>")  # noqa: E731
+    return norm(a) == norm(b)
